@@ -813,14 +813,14 @@ func TestVerif_C56(t *testing.T) {
 		c.Assume("the callback API reports every dictionary member / parameter occurrence in order; overwriting duplicate keys (§4.2.2 step 2.4, §4.2.3.2 step 2.7) is left to the consumer and not compared")
 		c.Assume("base64 decoding of byte-sequence content (§4.2.7 step 7) is left to the caller by this API (it returns the raw content, as does ParseString for escapes): inputs the reference accepts only because undecodable base64 content was let through are excluded; ParseString/ParseByteSequence are compared on accept/reject only")
 		c.Assume("integers/decimals/dates are within the RFC ranges by construction of the length limits; the http2 consumer parseRFC9218Priority is not exercised here")
-		vx.Enumerate(c, "all-fragments", vx.Opts{NoSample: true}, func(yield func([]string) bool) {
+		vx.Enumerate(c, "all-fragments", vx.Opts{}, func(yield func([]string) bool) {
 			vx.Strings(labels, 0, n, yield)
 		}, c56Check)
-		vx.Enumerate(c, "structural", vx.Opts{NoSample: true}, func(yield func([]string) bool) {
+		vx.Enumerate(c, "structural", vx.Opts{}, func(yield func([]string) bool) {
 			vx.Strings(c56Core, n+1, nCore, yield)
 		}, c56Check)
 		c.Rule(fmt.Sprintf("byte tables: each of the %d templates %q with its hole(s) filled by every byte value 0..255 (two-hole templates: every pair), so that every character-class decision (tchar, key characters, string/display-string ranges, base64 alphabet, hex digits, digits, separators) is taken on every byte", len(c56Templates), c56Templates))
-		vx.Enumerate(c, "byte-tables", vx.Opts{NoSample: true}, func(yield func(c56Tmpl) bool) {
+		vx.Enumerate(c, "byte-tables", vx.Opts{}, func(yield func(c56Tmpl) bool) {
 			for ti, t := range c56Templates {
 				two := strings.Contains(t, "%y")
 				for x := 0; x < 256; x++ {
